@@ -602,6 +602,10 @@ class WrappedTable:
         # create foreign key names for the association table
         left_fk_name = f"{self.tablename.lower()}{self.ormatic.foreign_key_postfix}"
         right_fk_name = f"{target_wrapped_table.tablename.lower()}{self.ormatic.foreign_key_postfix}"
+        # a collection of the own type needs two distinct columns referring to the same table
+        is_self_referential = right_fk_name == left_fk_name
+        if is_self_referential:
+            right_fk_name = f"target_{right_fk_name}"
 
         # create association table metadata
         association_table = AssociationTable(
@@ -623,6 +627,13 @@ class WrappedTable:
             f"Mapped[{module_and_class_name(List)}[{target_wrapped_table.tablename}]]"
         )
         rel_constructor = f"relationship('{target_wrapped_table.tablename}', secondary='{association_table_name}', cascade='save-update, merge')"
+        if is_self_referential:
+            # both columns of the association table refer to this table, so the join conditions have to be spelled out
+            rel_constructor = (
+                rel_constructor[:-1]
+                + f", primaryjoin='{self.full_primary_key_name} == {association_table_name}.c.{left_fk_name}'"
+                f", secondaryjoin='{self.full_primary_key_name} == {association_table_name}.c.{right_fk_name}')"
+            )
         self.relationships.append(
             ColumnConstructor(rel_name, rel_type, rel_constructor)
         )
